@@ -210,7 +210,7 @@ def e2e_job(job):
                 if rr.instantiate[0] == "build_error":
                     ent["build_error_class"] = classify_build_error(rr.instantiate[1])
                 if job.get("init_dump") and rr.init is not None and v0 is not None:
-                    ent["init_diffs"] = init_diffs(m, imp, rr, v0)
+                    ent["init_diffs"] = init_diffs(m, imp, rr, v0, b)
                 if rr.table is not None and rr.instantiate == ("ok",):
                     exp = e2e.expected_table(m, imp)
                     if exp is not None and exp != rr.table:
@@ -248,12 +248,14 @@ def shape_of(m):
             "start": m.start is not None}
 
 
-def init_diffs(m, imp, rr, v0):
+def init_diffs(m, imp, rr, v0, wasm=None):
     """State right after Instantiate: real vs V8 (no calls) vs the independent Python statement of the spec."""
     out = []
     ri = rr.init
     if v0.instantiate == ("ok",) and rr.instantiate == ("ok",):
-        if v0.mem is not None and ri["mem"] is not None and (v0.mem["sha256"] != ri["mem"]["sha256"] or v0.mem["pages"] != ri["mem"]["pages"]):
+        if v0.mem is not None and ri["mem"] is not None and (v0.mem["sha256"] != ri["mem"]["sha256"] or v0.mem["pages"] != ri["mem"]["pages"]) \
+                and not (wasm is not None and ri.get("mem_bytes") is not None and v0.mem["pages"] == ri["mem"]["pages"]
+                         and nan_only_diff(ri["mem_bytes"], v8_mem_bytes(m, wasm, [], imp, len(ri["mem_bytes"])))):
             out.append({"kind": "init-memory", "real": ri["mem"], "v8": {k: v0.mem[k] for k in ("sha256", "pages")}})
         if m.start is None and ri["mem"] is not None:
             import hashlib
